@@ -10,7 +10,15 @@ MANIFEST = dict(
     text=("Lean 4 theorems over the executable WAL model: the roll-forward of a log of absolute-address records is idempotent over every "
           "partially applied image (replay_idempotent: a kill between any two records of a checkpoint or of the recovery itself is harmless), "
           "and a regular checkpoint killed after any number of records is completed exactly by the recovery at the next open "
-          "(checkpoint_kill_recovers); kills between checkpoints are the cut-log theorem of C05. Exhaustive crash enumeration on the real "
+          "(checkpoint_kill_recovers); kills between checkpoints are the cut-log theorem of C05. Over an executable model of the writer "
+          "(Model/WalWriter.lean: log buffer with the payload-outside-the-segment rule, flush, fsync, savepoint, checkpoint, forced checkpoint, "
+          "truncate) and for every trace of its steps without a resize (hypothesis noForcedCheckpointInsideOp, finding F26): after a kill at any "
+          "point, with the log file cut anywhere at or after its last fsync, recovery yields the main-file image of a savepoint of the trace not "
+          "older than the last one synced, the last savepoint for pure process death, and the checkpoint's savepoint when killed while records are "
+          "applied (writer_recover_savepoint_partial); a completed checkpoint leaves main = replay(log) and an empty log (checkpoint_preserves); "
+          "the forced checkpoint exposes unsaved records (forced_checkpoint_exposes_unsaved, witness). The writer model is fed the listener "
+          "events recorded from real runs and must issue the same system calls on the log with the same bytes, keep the same flags, log file, "
+          "buffer, main file after checkpoints and recovery result. Exhaustive crash enumeration on the real "
           "code: a child runs random put/del/sync/new-db/checkpoint/close histories and is killed before every single file-system effect "
           "(write, ftruncate, fsync, msync, and the store of every log record during checkpoints incl. growth-forced ones, plus kills inside "
           "the recovery); the store is reopened and must equal the python reference after a prefix of the operations that contains "
@@ -18,12 +26,15 @@ MANIFEST = dict(
           "model byte for byte"),
     note=("trusted: Lean kernel, translator, harness/generators, gcc+ASan/UBSan, Linux page-cache semantics of process death (completed "
           "write/ftruncate and MAP_SHARED stores survive, MAP_PRIVATE and user buffers are lost); modelled not verified: C control flow; "
-          "no theorem over traces of the writer (the enumeration covers that part); idempotence is proved for logs without WBRESIZE/WBCOPY; "
+          "the trace theorem is about byte images at savepoints, its composition with the KV layer (savepoint image = prefix of operations) is covered "
+          "by the enumeration only; no WBCOPY in the kill-while-applying part; idempotence is proved for logs without WBRESIZE/WBCOPY; "
           "the property fails on the tree in the window of open finding F26 (resize-forced checkpoint without savepoint, incl. the tail trim "
           "of iwkv_close); checkpoint thread idle; tree = /repo + fix commits of branch fix-wal0504"),
     technique="Lean 4 proof over executable model + crash enumeration with link-time interposers + differential correspondence")
 MODULE = "IwModel.Props.C04"
-THEOREMS = ["IwModel.C04.replay_idempotent", "IwModel.C04.replay_idempotent_twice", "IwModel.C04.checkpoint_kill_recovers"]
+THEOREMS = ["IwModel.C04.replay_idempotent", "IwModel.C04.replay_idempotent_twice", "IwModel.C04.checkpoint_kill_recovers",
+            "IwModel.C04.writer_recover_savepoint_partial", "IwModel.C04.checkpoint_preserves", "IwModel.C04.forced_checkpoint_exposes_unsaved",
+            "IwModel.C04.forced_checkpoint_witness"]
 WRAPS = ("write", "pwrite64", "ftruncate64", "fsync", "fdatasync", "msync")
 
 
@@ -199,6 +210,257 @@ def explore(ctx, h, drv, label, nhist, nops, stride, n2):
                         ctx.log("DIVERGE", opl, "| impl:", a, "| model:", b)
 
 
+# ------------------------------------------------------------------ (d) writer model vs the real writer
+
+WWRAPS = ("write", "fsync", "fdatasync", "ftruncate64")
+
+
+def build_writer(ctx):
+    impl = C.build_impl("asan")
+    return C.build_harness(impl, "h_walw", ["h_walw.c"], exclude=("iwal.c",), wraps=WWRAPS)
+
+
+def gen_writer_history(r, wd, tag, nops):
+    """op lines for h_walw: set-up, `rec` at a clean point, random ops with snapshots, close"""
+    path = os.path.join(wd, tag + ".db")
+    crc = r.choice([0, 1, 1])
+    buf = r.choice([4096, 4096, 8192, 16384])
+    ops = ["open %s %d %d" % (path, crc, buf), "db 1"]
+    dbs = [1]
+    if r.random() < 0.4:
+        ops.append("db 2"); dbs.append(2)
+    if r.random() < 0.6:      # pre-grown file: few resize-forced checkpoints inside the recorded part
+        ops += ["put 1 %s %d 9" % (b"grow".hex(), r.choice([20000, 40000, 80000])), "del 1 %s" % b"grow".hex()]
+    ops += ["ckpt", "rec %s %s" % (os.path.join(wd, tag + ".ev"), os.path.join(wd, tag + ".main0"))]
+    keys = [b"k%03d" % i for i in range(r.choice([6, 20, 50]))] + [bytes([65 + i]) * r.choice([40, 120, 200]) for i in range(2)]
+    psync = r.choice([0.05, 0.15, 0.3])
+    nsnap = 0
+    for _ in range(nops):
+        x = r.random()
+        if x < psync:
+            ops.append("sync")
+        elif x < psync + 0.04:
+            ops.append("ckpt")
+        elif x < psync + 0.07 and len(dbs) < 4:
+            d = max(dbs) + 1; dbs.append(d); ops.append("db %d" % d)
+        elif x < psync + 0.13 and nsnap < 4:
+            ops.append("snap %s %s %s" % tuple(os.path.join(wd, "%s.s%d.%s" % (tag, nsnap, k)) for k in ("main", "wal", "buf"))); nsnap += 1
+        else:
+            d, k = r.choice(dbs), r.choice(keys)
+            if r.random() < 0.25:
+                ops.append("del %d %s" % (d, k.hex()))
+            else:
+                # sizes around the buffer capacity: payload inside the buffer, exactly filling it, written outside the segment
+                ln = r.choice([r.randrange(1, 40), r.randrange(1, 300), r.randrange(300, 3000), r.randrange(buf - 400, buf + 100),
+                               r.randrange(4000, 9000), r.randrange(9000, 30000)])
+                ops.append("put %d %s %d %d" % (d, k.hex(), ln, r.randrange(1, 250)))
+    ops.append("snap %s %s %s" % tuple(os.path.join(wd, "%s.s%d.%s" % (tag, nsnap, k)) for k in ("main", "wal", "buf")))
+    ops += ["close", "stop"]
+    return ops, crc, buf, path
+
+
+def gen_raw_history(r, wd, tag, nops):
+    """The listener driven directly inside a free region at the end of a pre-grown file: exact fits of payload and header,
+    WBCOPY, onsynced -- what KV operations produce rarely or never. No KV operation follows the raw events and the store is
+    not closed (its contents are overwritten on purpose)."""
+    path = os.path.join(wd, tag + ".db")
+    crc = r.choice([0, 1])
+    buf = r.choice([4096, 8192])
+    grow = 70000
+    ops = ["open %s %d %d" % (path, crc, buf), "db 1", "put 1 %s %d 9" % (b"grow".hex(), grow), "del 1 %s" % b"grow".hex(),
+           "ckpt", "rec %s %s" % (os.path.join(wd, tag + ".ev"), os.path.join(wd, tag + ".main0"))]
+    return ops, crc, buf, path
+
+
+def raw_ops(r, wd, tag, nops, msz, buf):
+    lo, hi = msz - 40000, msz          # stores stay inside [lo, hi)
+    ops, nsnap = [], 0
+    off = lambda ln: r.randrange(lo, hi - ln)
+    for _ in range(nops):
+        x = r.random()
+        if x < 0.22:
+            ops.append("raw write %d fit%d %d" % (off(buf + 8), r.choice([0, 0, 1, -1, 2, -20, 5]), r.randrange(1, 250)))
+        elif x < 0.40:      # leave r bytes free, then a record whose header (20/24/28 bytes) just fits or just does not
+            ops.append("raw room %d %d %d" % (off(buf), r.choice([0, 1, 11, 12, 19, 20, 21, 23, 24, 25, 27, 28, 29]), r.randrange(1, 250)))
+            k = r.random()
+            if k < 0.4:
+                ops.append("raw write %d %d %d" % (off(64), r.choice([0, 1, 7, 30]), r.randrange(1, 250)))
+            elif k < 0.7:
+                ops.append("raw set %d %d %d" % (off(600), r.randrange(256), r.choice([0, 1, 500])))
+            else:
+                ln = r.choice([0, 1, 300])
+                ops.append("raw copy %d %d %d" % (off(ln + 1), ln, off(ln + 1)))
+        elif x < 0.55:
+            ops.append("raw write %d %d %d" % (off(3 * buf), r.choice([0, 1, 40, 300, buf - 21, buf - 20, buf - 19, buf, 2 * buf + 5]), r.randrange(1, 250)))
+        elif x < 0.65:
+            ops.append("raw set %d %d %d" % (off(5000), r.randrange(256), r.choice([0, 1, 17, 4096])))
+        elif x < 0.75:
+            ln = r.choice([0, 1, 64, 2000])
+            ops.append("raw copy %d %d %d" % (off(ln + 1), ln, off(ln + 1)))
+        elif x < 0.80:
+            ops.append("raw synced")
+        elif x < 0.90:
+            ops.append("sync")
+        elif x < 0.95:
+            ops.append("ckpt")
+        elif nsnap < 3:
+            ops.append("snap %s %s %s" % tuple(os.path.join(wd, "%s.s%d.%s" % (tag, nsnap, k)) for k in ("main", "wal", "buf"))); nsnap += 1
+    ops.append("snap %s %s %s" % tuple(os.path.join(wd, "%s.s%d.%s" % (tag, nsnap, k)) for k in ("main", "wal", "buf")))
+    ops.append("stop")
+    return ops
+
+
+def convert_events(evpath):
+    """event file of h_walw -> [(model op, system calls on the log that followed, flags line or None, checkpoint-end line or None)]"""
+    recs = [l.rstrip("\n") for l in open(evpath)]
+    out, i = [], 0
+    while i < len(recs):
+        l = recs[i]; w = l.split()
+        if not w or w[0] in ("#", "st"):
+            i += 1; continue
+        kind = w[0]
+        if kind == "snap":
+            out.append(("snap", w[1:4], None, None)); i += 1; continue
+        if kind not in ("set", "copy", "write", "resize", "synced", "time0"):
+            raise ValueError("unexpected event record: " + l[:80])
+        j, effs, t1 = i + 1, [], None
+        while j < len(recs):
+            k = recs[j].split()[0]
+            if k == "W": effs.append("W:%s:%s" % tuple(recs[j].split()[1:3]))
+            elif k == "F": effs.append("F")
+            elif k == "T": effs.append("T")
+            elif k == "time1" and t1 is None and kind in ("resize", "time0"): t1 = recs[j]
+            elif k == "#": pass
+            else: break
+            j += 1
+        st = recs[j] if j < len(recs) and recs[j].startswith("st ") else None
+        if kind == "time0":
+            op = ("ckpt %s" % w[1]) if t1 else ("sp %s %d" % (w[1], 1 if "F" in effs else 0))
+        else:
+            op = l
+        out.append((op, " ".join(effs) or "-", st, t1))
+        i = j
+    return out
+
+
+def writer_tie(ctx, drv, label, nhist, nops):
+    """The Lean writer (`Model/WalWriter.lean`) is fed the listener events recorded from a real run and must perform the same
+    system calls on the log file (lengths and FNV of every write), keep the same flags, leave the same log file and log buffer
+    byte for byte, the same main file after every checkpoint, and recover to the same image after a kill at every snapshot."""
+    if not drv:
+        return
+    h = build_writer(ctx)
+    r = C.Rng(ctx.seed, "c04/writer/" + label)
+    wd = os.path.join(C.scratch(), "c04w-" + label)
+    os.makedirs(wd, exist_ok=True)
+    for hi in range(nhist + max(2, nhist // 3)):
+        tag = "w%d" % hi
+        raw = hi >= nhist
+        if raw:
+            # two passes: the set-up tells the size of the file, the raw events are placed inside its free tail
+            ops, crc, buf, path = gen_raw_history(r, wd, tag, nops)
+            rc, out, err = C.run_lines([h], ops, timeout=300)
+            recl = [o for o in out if o.startswith("rec ok")]
+            if rc != 0 or not recl:
+                ctx.corr_broken.append("writer tie: raw-listener set-up failed: %s %s" % (out[-1:], err[-200:]))
+                continue
+            ops = ops + raw_ops(r, wd, tag, r.randrange(nops, 2 * nops), int(W.field(recl[0], "msz")), buf)
+        else:
+            ops, crc, buf, path = gen_writer_history(r, wd, tag, r.randrange(max(4, nops // 2), nops))
+        rc, out, err = C.run_lines([h], ops, timeout=300)
+        if rc != 0 or len(out) != len(ops) or not any(o.startswith("rec ok") for o in out):
+            kind, fn = san_site(err)
+            ctx.fail(dict(kind="crash", phase="writer-history", site=fn, what=kind), dict(lines=ops, stderr=err[-3000:], out=out[-5:]),
+                     "recorded writer history failed: rc=%s %s %s" % (rc, out[-1:], err[-300:]))
+            continue
+        recl = [o for o in out if o.startswith("rec ok")][0]
+        try:
+            conv = convert_events(os.path.join(wd, tag + ".ev"))
+        except ValueError as e:
+            ctx.corr_broken.append("writer tie: %s" % e)
+            continue
+        lines, what = ["init %d %s %s" % (crc, W.field(recl, "bufsz"), os.path.join(wd, tag + ".main0"))], [None]
+        snaps = []
+        for c in conv:
+            if c[0] == "snap":
+                k = len(snaps)
+                snaps.append(c[1])
+                for part in ("log", "buf"):
+                    lines.append("dump %s %s" % (part, os.path.join(wd, "%s.m%d.%s" % (tag, k, part)))); what.append(("dump", k, part))
+                lines.append("recover"); what.append(("recover", k))
+            else:
+                lines.append(c[0]); what.append(("op", c))
+                if c[3]:
+                    lines.append("state"); what.append(("main", c))
+        rc, mo, me = C.run_lines([drv, "walw"], lines, timeout=600)
+        if rc != 0 or len(mo) != len(lines):
+            ctx.corr_broken.append("writer model driver failed on history %s: rc=%s %s" % (tag, rc, me[-300:]))
+            continue
+        # the real recovery of every snapshot pair (kill at that instant)
+        # (not for raw-listener histories: they overwrite the store's contents, the KV layer may refuse the file)
+        rl = [] if raw else ["recov %s %s %s %d" % (os.path.join(wd, "rw.db"), sn[0], sn[1], crc) for sn in snaps]
+        rc, ro, re_ = C.run_lines([h], rl, timeout=300) if rl else (0, [], "")
+        if rc != 0 or len(ro) != len(rl):
+            kind, fn = san_site(re_)
+            ctx.fail(dict(kind="crash", phase="writer-recover", site=fn, what=kind), dict(lines=ops, recov=rl, stderr=re_[-3000:]),
+                     "recovery of a snapshot taken during a recorded history died: %s" % re_[-300:])
+            continue
+        nbad = 0
+
+        def diverge(msg):
+            nonlocal nbad
+            nbad += 1
+            ctx.corr_broken.append("writer model/implementation diverge (%s, crc=%d bufsz=%d): %s" % (tag, crc, buf, msg))
+            if nbad <= 3:
+                ctx.log("DIVERGE writer", tag, msg[:600])
+        for wi, (wh, o) in enumerate(zip(what, mo)):
+            if wh is None:
+                continue
+            if wh[0] == "op":
+                op, effs, st, t1 = wh[1]
+                ctx.cov["traces_validated_against_impl"] += 1
+                ctx.case(("writer", label, hi, wi))
+                ctx.hist("writer-step-" + op.split()[0] + ("-raw" if raw else ""))
+                if raw and op.startswith("write"):
+                    # how the payload met the buffer: inside with room to spare, filling it exactly, written outside
+                    bp = W.field(st, "bufpos") if st else None
+                    ctx.hist("writer-raw-payload-" + ("outside" if effs.count("W:") >= 1 and bp == "0" else "fills-buffer" if bp == W.field(recl, "bufsz") else "inside"))
+                if "W:" in effs and effs.count("W:") >= 2 and op.startswith("write"):
+                    ctx.hist("writer-payload-outside-segment")
+                me_, ms = o.split(" | ") if " | " in o else (o, "")
+                bad = me_ != effs
+                if st and not st.startswith("st closed"):
+                    bad = bad or any(W.field(st, k) != W.field(ms, k) for k in ("bufpos", "synched", "mbytes", "wsz"))
+                if t1:
+                    bad = bad or W.field(t1, "msz") != W.field(ms, "msz")
+                if bad:
+                    diverge("step `%s`: impl `%s | %s | %s` model `%s`" % (op[:80], effs, st, t1, o))
+                if W.field(ms, "valid") != "1":
+                    diverge("listener event `%s` violates the hypothesis Valid of the writer theorems" % op[:80])
+                else:
+                    ctx.hist("writer-event-satisfies-Valid")
+            elif wh[0] == "main":
+                t1 = wh[1][3]
+                ctx.hist("writer-main-after-checkpoint-compared")
+                if "main=%s:%s " % (W.field(t1, "msz"), W.field(t1, "mh")) not in o + " ":
+                    diverge("main file after the checkpoint of `%s`: impl `%s` model `%s`" % (wh[1][0][:60], t1, o))
+            elif wh[0] == "dump":
+                k, part = wh[1], wh[2]
+                real = open(snaps[k][1] if part == "log" else snaps[k][2], "rb").read()
+                model = open(os.path.join(wd, "%s.m%d.%s" % (tag, k, part)), "rb").read()
+                ctx.hist("writer-%s-bytes-compared" % part, len(real))
+                if real != model:
+                    first = next((i for i in range(min(len(real), len(model))) if real[i] != model[i]), min(len(real), len(model)))
+                    diverge("%s at snapshot %d differs: %d vs %d bytes, first difference at %d" % (part, k, len(real), len(model), first))
+            elif wh[0] == "recover":
+                if raw:
+                    continue
+                ctx.hist("writer-kill-recover-compared")
+                if ro[wh[1]] != o:
+                    diverge("recovery after a kill at snapshot %d: impl `%s` model `%s`" % (wh[1], ro[wh[1]], o))
+        ctx.sample(dict(writer_history_head=ops[:7], steps=len(conv), snapshots=len(snaps), crc=crc, bufsz=buf))
+
+
 def run(ctx):
     ctx.cov["rule"] = ("each history (random put/del/sync/new-db/checkpoint, value sizes 1..40000, 1-4 databases, with and without file growth "
                        "inside operations) is re-run once per crash point k and killed by _exit immediately before its k-th file-system effect "
@@ -212,10 +474,12 @@ def run(ctx):
     drv = C.drv_path() if drv_ok else None
     if ctx.tier == "quick":
         explore(ctx, h, drv, "main", 9, 14, 1, 12)
+        writer_tie(ctx, drv, "main", 5, 50)
     else:
         explore(ctx, h, drv, "main", 24, 30, 1, 60)
         explore(ctx, h, drv, "long", 6, 100, 9, 30)
-    if ctx.proof_broken or ctx.corr_broken:
+        writer_tie(ctx, drv, "main", 24, 120)
+    if (ctx.proof_broken or ctx.corr_broken) and not ctx.violations:
         ctx.log("obligation or correspondence broken: widening the search for a failing input")
         explore(ctx, h, None, "search", 12, 30, 1, 20)
 
